@@ -55,6 +55,8 @@ static void obs_str(obuf_t *o, spif_str_t s, const char *tag, int k)
     if (!sa_readable(s, sizeof(*s))) FAIL("INVARIANT", "dangling-component", k, "%s is not a live object", tag);
     if (s->len < 0 || s->len > (1 << 20)) FAIL("INVARIANT", "component-state", k, "%s has length %lld", tag, (long long)s->len);
     if (s->len && (!s->s || !sa_readable(s->s, (size_t)s->len + 1))) FAIL("INVARIANT", "dangling-component", k, "%s text is not a live block of len+1 bytes", tag);
+    /* an object (a copy in particular) must own the capacity it reports: later operations write within it without asking */
+    if (s->s && (s->size <= s->len || !sa_readable(s->s, (size_t)s->size))) FAIL("INVARIANT", "capacity", k, "%s reports capacity %lld for length %lld, its buffer is not a live block of that many bytes", tag, (long long)s->size, (long long)s->len);
     ob_printf(o, "%s=%lld:", tag, (long long)s->len);
     if (s->len) ob_add(o, s->s, (size_t)s->len);
     ob_add(o, ";", 1);
@@ -123,6 +125,7 @@ static void observe(obuf_t *o, int slot)
         spif_mbuff_t m = SPIF_MBUFF(x);
         if (!sa_readable(m, sizeof(*m))) FAIL("INVARIANT", "object-block", k, "object is not a live block");
         if (m->len < 0 || m->len > (1 << 20) || (m->len && (!m->buff || !sa_readable(m->buff, (size_t)m->len)))) FAIL("INVARIANT", "dangling-component", k, "buffer is not a live block of len bytes");
+        if (m->buff && (m->size < m->len || (m->size && !sa_readable(m->buff, (size_t)m->size)))) FAIL("INVARIANT", "capacity", k, "buffer reports capacity %lld for length %lld, it is not a live block of that many bytes", (long long)m->size, (long long)m->len);
         ob_printf(o, "b=%lld:", (long long)m->len);
         if (m->len) ob_add(o, m->buff, (size_t)m->len);
         break;
